@@ -40,12 +40,12 @@ P = {
  'C11': ('other', 'normal-form agreement between matcher literals and lexer output (case, inner whitespace), vocabulary shadowing',
          'Every comparison of keyword text against a constant goes through a normal form erasing case and inner whitespace; multi-word rules use \\s+; neighbour lookups skip whitespace by containment.',
          'Not decided: equality of tree shapes under respelling as such.', '3 C11'),
- 'C12': ('other', 'table agreement of name types + lookup discipline of accessors (thin)',
-         'Necessary conditions only: quote removal, whitespace-insensitive lookups by containment, name-type sets agree, both alias forms handled.',
-         'Not decided: which child an accessor selects (run-time shapes) -- the core of the property.', '3 C12'),
- 'C13': ('other', 'closing-keyword tables vs lexer vocabulary; accessor kind agreement; AST interpretation of get_identifiers on every token kind and of the joining driver on bracketed groups',
-         'Closer tables against the statement and against what the lexer can emit; item filters; producible typed literals; a typed literal directly behind "(" is still grouped (driver interpretation).',
-         'Not decided: extents and contents on arbitrary queries.', '3 C13'),
+ 'C12': ('other', 'AST interpretation of the five accessors on enumerated Identifier trees; table agreement of name types; pass-order rule over the _group clients; lexer scan semantics',
+         'get_real_name/get_parent_name/get_alias/get_name/has_alias interpreted on Identifier trees (name, qualifier.name, three quoting styles, alias with/without AS, blanks and comments between the parts) return the written parts; name-type sets of lexer and accessors agree; a name after a period is lexed as a name; no Identifier-building pass that runs before group_identifier/group_as takes a Parenthesis as operand.',
+         'Bounded: trees of the property\'s reference forms, not arbitrary expressions; the placement of the reference in a statement is covered only through the pass-order and follower rules.', '3 C12'),
+ 'C13': ('other', 'AST interpretation of group_where, get_cases, get_identifiers, get_parameters and the joining driver on enumerated token lists; closing-keyword tables vs lexer vocabulary; region rules of the lexer',
+         'Where extent on token lists with every closing keyword / in a parenthesis / at the end; one (condition, value) pair per WHEN arm and (None, value) for ELSE on 216 Case trees; list items and sole arguments of every token kind; a typed literal directly behind "(" is grouped; literals, quoted names and comments are single tokens whatever they contain.',
+         'Bounded: lists of up to a handful of tokens per shape. Not decided: Comparison.left/right on arbitrary operands beyond the kind tables.', '3 C13'),
  'C14': ('other', 'leftmost-first extent automata x specification DFA; dictionary/rule table agreement',
          'For every region kind and every body over the full alphabet the first matching rule is of the expected family and ends exactly at the terminator; dictionaries consulted in registration order case-insensitively; every dictionary word reachable as one token.',
          'Contexts limited to the delimiter classes listed; character classes sampled over BMP + astral representatives.', '3 C14'),
